@@ -131,6 +131,22 @@ fn probe_key_files_are_exactly_the_key_pair() {
     }
     let k1 = fs::read(&fresh).unwrap();
     assert_eq!(k1.len(), 48, "private key file is not the 48-byte DER");
+    // every seed is a seed: the empty one, a blank one and a unicode one give the same key twice, and different keys from each other
+    let mut by_seed = Vec::new();
+    for (i, seed) in ["", " ", "\u{e9}\u{4e16}", "TESTSEED"].iter().enumerate() {
+        let mut runs = Vec::new();
+        for run in 0..2 {
+            let out = base.join(format!("seed{i}_{run}.key"));
+            let m = app().try_get_matches_from(["mlar", "keygen", out.to_str().unwrap(), "-s", seed]).unwrap();
+            let (_, sub) = m.subcommand().unwrap();
+            keygen(sub).unwrap();
+            runs.push(fs::read(&out).unwrap());
+        }
+        assert_eq!(runs[0], runs[1], "seed {seed:?}: two runs of seeded keygen give different private keys");
+        by_seed.push(runs[0].clone());
+    }
+    assert_eq!(by_seed[3], k1);
+    for i in 0..by_seed.len() { for j in 0..i { assert!(by_seed[i] != by_seed[j], "two different seeds give the same key"); } }
     assert_eq!(fs::read(&stale).unwrap(), k1, "keygen over an existing file does not give the same private key file");
     assert_eq!(fs::read(stale.with_extension("pub")).unwrap(), fs::read(fresh.with_extension("pub")).unwrap(), "keygen over an existing file does not give the same public key file");
     // derivation
